@@ -151,6 +151,28 @@ THOROUGH_EXTRA = [
 ]
 
 
+# configurations of the coverage-guided stage (lib/fuzz.py; always clang++-14 + libFuzzer)
+FUZZ_CFGS = [
+    VCfg("s", 4, "NTR", "basic", "uint32_t", "v", compiler="clang++-14"),
+    VCfg("s", 3, "TR", "realloc", "uint8_t", "f3", compiler="clang++-14"),
+    VCfg("v", 0, "NTR", "exact", "int8_t", "sx3", compiler="clang++-14"),
+    VCfg("v", 0, "TR", "basic", "uint64_t", "s8_4", compiler="clang++-14"),
+    VCfg("s", 2, "TC4", "basic", "uint8_t", "f3", compiler="clang++-14"),
+    VCfg("s", 8, "NTR", "std", "int16_t", "v", compiler="clang++-14"),
+    VCfg("f", 4, "TR", "none", "uint8_t", "s3", compiler="clang++-14"),
+    VCfg("f", 16, "NTR", "none", "uint8_t", "f3", compiler="clang++-14"),
+    VCfg("s", 1, "NTR", "realloc", "uint16_t", "s3", compiler="clang++-14"),
+    VCfg("s", 4, "double", "amc", "uint32_t", "v", compiler="clang++-14"),
+    VCfg("v", 0, "int", "realloc", "uint16_t", "s3", compiler="clang++-14"),
+    VCfg("v", 0, "NTRTM", "basic", "uint32_t", "s8_4", compiler="clang++-14"),
+    VCfg("s", 4, "TC12", "std", "uint64_t", "f8", compiler="clang++-14"),
+    VCfg("s", 3, "NTR", "basic", "uint32_t", "v", std="c++20", compiler="clang++-14"),
+    VCfg("v", 0, "TC4", "amc", "uint8_t", "v", compiler="clang++-14"),
+    VCfg("s", 8, "TR", "amc", "uint32_t", "s4", compiler="clang++-14"),
+]
+FUZZ_QUICK = [FUZZ_CFGS[0], FUZZ_CFGS[1], FUZZ_CFGS[2], FUZZ_CFGS[6]]
+
+
 def select(prop, tier):
     cfgs = list(QUICK)
     if tier == "thorough":
